@@ -56,7 +56,9 @@ def nested_unreached_roots_check(ctx, n, prop):
         size = rng.choice([1, 300, 5000])
         conts = [treegen.content(rng.next(), size) for _ in range(3)]
         ign_name = rng.choice([".gitignore", ".fdignore"])
-        dirs = ["proj", "proj/.cache", "proj/.cache/deep", "proj/build", "proj/build/obj", "proj/sub", "proj/sub/.priv", "other"]
+        # a sibling input path whose name is NOT valid UTF-8 in half of the trees (a Latin-1 name: byte 0xE9)
+        oname = "other" if rng.chance(1, 2) else "oth\udce9r-latin1"
+        dirs = ["proj", "proj/.cache", "proj/.cache/deep", "proj/build", "proj/build/obj", "proj/sub", "proj/sub/.priv", oname]
         for d in dirs:
             os.makedirs(os.path.join(top, d))
         with open(os.path.join(top, "proj", ign_name), "w") as f:
@@ -84,8 +86,8 @@ def nested_unreached_roots_check(ctx, n, prop):
         roots = ["proj"] + rng.shuffle(nested)[:1 + rng.below(3)]
         if hidden_files and rng.chance(1, 2):
             roots.append(os.path.relpath(rng.choice(hidden_files), top))
-        if rng.chance(1, 3):
-            roots.append("other")
+        if rng.chance(1, 2):
+            roots.append(oname)
         roots = rng.shuffle(roots)
         how = rng.below(3)
         spelled = [r if how == 0 else ("./" + r if how == 1 else os.path.join(top, r)) for r in roots]
@@ -97,17 +99,18 @@ def nested_unreached_roots_check(ctx, n, prop):
         env0 = {"FCLONES_VERIF_DISK_KIND": "ssd", "HOME": home, "XDG_CONFIG_HOME": os.path.join(home, ".config")}
         if stdin_mode:
             rc, out, err = treegen.fclones(["group", "--stdin"] + opts + ["-f", "json"], cwd=top, env=env0,
-                                           stdin=("\n".join(spelled) + "\n").encode())
+                                           stdin=("\n".join(spelled) + "\n").encode("utf-8", "surrogateescape"))
         else:
             rc, out, err = treegen.fclones(["group"] + spelled + opts + ["-f", "json"], cwd=top, env=env0)
         ctx.count()
         ctx.distinct(("nested", i, tuple(spelled), tuple(opts), stdin_mode), True)
-        ctx.bump("nested_unreached_roots", "+".join(sorted(r for r in roots if r not in ("proj", "other"))) or "-")
+        ctx.bump("nested_unreached_roots", "+".join(sorted(r for r in roots if r not in ("proj", oname))) or "-")
+        ctx.bump("nested_unreached_non_utf8_input_path", "%s%s" % ("stdin:" if stdin_mode else "argv:", "yes" if oname != "other" and oname in roots else "no"))
         ctx.bump("nested_unreached_follow_links", int(follow))
         payload = {"scenario": "input paths inside other input paths that the outer walk does not reach (hidden / ignored)",
-                   "top": top, "roots": spelled, "opts": opts, "stdin": stdin_mode, "ignore_file": ign_name,
-                   "files": sorted(files), "stderr": err.decode("utf-8", "replace")[-400:],
-                   "replay": "cd %s && fclones group %s %s" % (top, "--stdin <<< roots" if stdin_mode else " ".join(spelled), " ".join(opts))}
+                   "top": top, "roots": [r.encode("utf-8", "surrogateescape").decode("utf-8", "replace") for r in spelled], "opts": opts, "stdin": stdin_mode, "ignore_file": ign_name,
+                   "files": sorted(f_.encode("utf-8", "surrogateescape").decode("utf-8", "replace") for f_ in files), "stderr": err.decode("utf-8", "replace")[-400:],
+                   "replay": "cd %s && fclones group %s %s" % (top, "--stdin <<< roots" if stdin_mode else " ".join(spelled).encode("utf-8", "surrogateescape").decode("utf-8", "replace"), " ".join(opts))}
         if rc != 0:
             ctx.violation({"kind": "run_failed", "dimension": "nested_unreached"}, "fclones group failed (rc %d)" % rc, payload, found_input=True)
             continue
@@ -122,7 +125,8 @@ def nested_unreached_roots_check(ctx, n, prop):
         _, groups = treegen.parse_json_report(out.decode("utf-8"))
         got = sorted(tuple(sorted(p.decode("utf-8", "surrogateescape") for p in g["files"])) for g in groups)
         listed = [p for g in got for p in g]
-        payload["expected"], payload["reported"] = want, got
+        vis = lambda x: x.encode("utf-8", "surrogateescape").decode("utf-8", "replace")
+        payload["expected"], payload["reported"] = [[vis(p) for p in g] for g in want], [[vis(p) for p in g] for g in got]
         if len(listed) != len(set(listed)):
             ctx.violation({"kind": "path_listed_twice", "dimension": "nested_unreached"}, "a path is listed twice", payload, found_input=True)
         elif want != got:
@@ -133,5 +137,5 @@ def nested_unreached_roots_check(ctx, n, prop):
                 kind = "class_incomplete"
             ctx.violation({"kind": kind, "dimension": "nested_unreached"},
                           "explicit input paths inside other input paths: the report is not the partition of the selected files "
-                          "(missing %s, not selected %s)" % (missing[:3], extra[:3]), payload, found_input=True)
+                          "(missing %s, not selected %s)" % ([vis(p) for p in missing[:3]], [vis(p) for p in extra[:3]]), payload, found_input=True)
         shutil.rmtree(base, ignore_errors=True)
